@@ -2,7 +2,7 @@
 # C02 model: in-memory sending queue + context-aware condition variable, as an interleaving LTS
 
 Mirrors `exporter/exporterhelper/internal/queuebatch/memory_queue.go` (`Offer`, `add`, `Read`, `onDone`,
-`Shutdown`, `linkedQueue`, `blockingDone`) and `cond.go` **as repaired** (per-waiter channels: `Signal`
+`Shutdown`, `linkedQueue`, `blockingDone`) and `cond.go` **as repaired** (space is freed with `Broadcast`, `Shutdown` broadcasts to the producers too; per-waiter channels: `Signal`
 closes the channel of the first registered waiter and therefore never blocks; a cancelled waiter that
 finds itself already signalled forwards the signal).  The pinned `cond.go` (one shared channel of
 capacity 1, `Signal` sends while holding the lock) is modelled separately in `Model/C02Pinned.lean`,
@@ -99,6 +99,10 @@ def condSignal (s : St) : St :=
   | [] => s
   | w :: ws => { s with waiters := ws, ps := upd s.ps w { s.ps w with sig := true } }
 
+/-- `cond.Broadcast()`: close the channel of every registered waiter; each of them re-evaluates its own condition -/
+def condBroadcast (s : St) : St :=
+  { s with waiters := [], ps := fun q => if q ∈ s.waiters then { s.ps q with sig := true } else s.ps q }
+
 /-- Offer returns an error without having pushed -/
 def refuse (s : St) (p : Nat) (r : Res) : St :=
   { s with refused := s.refused ++ [p], ps := upd s.ps p { s.ps p with ph := .done r, sig := false } }
@@ -118,8 +122,11 @@ def register (s : St) (p : Nat) (el : Int) : St :=
 by `if mq.stopped { return errQueueIsStopped }` -/
 def tryAdd (k : Cfg) (s : St) (p : Nat) (el : Int) : St :=
   if s.size + el > k.cap then
-    if k.block then register s p el else refuse s p .full
-  else if s.stopped then refuse s p .stopped   -- the guard sits AFTER the overflow loop, still under the lock
+    if k.block then
+      if s.stopped then refuse s p .stopped   -- inside the loop, before Wait: nobody waits for space on a stopped queue
+      else register s p el
+    else refuse s p .full
+  else if s.stopped then refuse s p .stopped   -- the guard AFTER the overflow loop, still under the lock
   else accept k s p el
 
 /-- `items.pop()` inside Read -/
@@ -132,10 +139,10 @@ def pop (s : St) : Option St :=
 def ctxCleanup (s : St) (p : Nat) : St :=
   if p ∈ s.waiters then { s with waiters := s.waiters.erase p } else condSignal s
 
-/-- `onDone`: `size -= elSize; hasMoreSpace.Signal(); if waitForResult { bd.ch <- err }` -/
+/-- `onDone`: `size -= elSize; hasMoreSpace.Broadcast(); if waitForResult { bd.ch <- err }` -/
 def finish (k : Cfg) (s : St) (id : Nat) (el : Int) (e : Nat) : St :=
-  let s1 := condSignal { s with size := s.size - el, inflight := s.inflight.filter (fun x => x.1 != id),
-                                finished := s.finished ++ [id], outcomes := s.outcomes ++ [(id, e)] }
+  let s1 := condBroadcast { s with size := s.size - el, inflight := s.inflight.filter (fun x => x.1 != id),
+                                   finished := s.finished ++ [id], outcomes := s.outcomes ++ [(id, e)] }
   if k.wfr then { s1 with results := s1.results ++ [(id, e)] } else s1
 
 def fire (k : Cfg) (s : St) : Label → Option St
@@ -180,7 +187,7 @@ def fire (k : Cfg) (s : St) : Label → Option St
     match s.inflight.lookup id with
     | some el => some (finish k s id el e)
     | none => none
-  | .shutdown => some { s with stopped := true, cwait := [], cwoken := s.cwoken ++ s.cwait }
+  | .shutdown => some (condBroadcast { s with stopped := true, cwait := [], cwoken := s.cwoken ++ s.cwait })
 
 /-- run a schedule; `none` if some label is not enabled -/
 def runSched (k : Cfg) : St → List Label → Option St
